@@ -95,7 +95,47 @@ def jobs_c03(tier):
     return js
 
 
+def jobs_c16(tier):
+    js = [J("std", "fast", "host", progress=True), J("std", "checked", "host", 0.5, progress=True)]
+    js += [J("std", "fast", l, 0.3, progress=True) for l in LEVELS]
+    js += [J("nosimd", "fast", "host", 0.5, progress=True)]
+    if tier != "quick":
+        js += [J("std", "dev", "host", 0.05, progress=True)]
+    return js
+
+
+def jobs_c18(tier):
+    js = [fam("std", "fast", "concurrent-cold"), fam("std", "fast", "concurrent-sustained"), fam("std", "fast", "interleaved"),
+          fam("std", "checked", "interleaved", 0.5)]
+    return js
+
+
 PLANS = {
+    "C18": {
+        "jobs": jobs_c18,
+        "parallel": 3,
+        "rule": "(a) concurrent first use, randomised stress (the schedule is not controlled): generated cases of 2..48 threads, each with a "
+                "spin count before its first call and 1..3 short jobs over 28 algorithms (17 hashes, 7 ciphers, 3 Threefish sizes, block "
+                "API), 70 % of the threads making their first call into one shared target; and sustained cases of 8..32 threads pushing "
+                "0.5-2 MiB each through one algorithm; every case runs in a freshly started child process with all threads released by a "
+                "barrier; oracle: every output equals the single-threaded one-at-a-time result (itself checked against the reference "
+                "model for inputs <= 8 KiB). (b) interleaving, deterministic: 2..6 instances of equal or different types (hashes and "
+                "ciphers) receive 1..39 boundary-relative pieces in generated interleaved order, in one thread or distributed over 2..4 "
+                "owner threads; oracle: every instance equals its own one-at-a-time result. Non-trivial = >= 2 threads share a "
+                "first-call target resp. >= 2 instances interleaved; distinct = FNV-1a of (configuration, case)",
+        "assumptions": COMMON_ASSUMPTIONS + ["part (a) is a stress test: thread schedules are produced by the OS, not enumerated; a narrow race window can be missed"],
+    },
+    "C16": {
+        "jobs": jobs_c16,
+        "rule": "APIs: apply_keystream and NewCipher::new for the 7 cipher types, update and finalize_into for 17/16 hash types, Threefish "
+                "encrypt/decrypt (3 sizes, key and block), guts ChaCha::new/refill/refill4, JH Compressor::input, read_le/read_be/"
+                "write_le/write_be of the five StoreBytes vector types on every back end. Exhaustive: every API x start alignment 0..63 "
+                "(between canaries) + slice ending on the last byte before a PROT_NONE page + slice starting on the first byte after one, "
+                "lengths rotating through 1,2,15..17,31,63..65,127..129,255..257,1000; generated: random (API, placement, length <= 4000, "
+                "content). Oracle: result equals the result on an ordinary heap buffer, canaries intact, process survives (a fault is "
+                "attributed to its case through the progress file and replayed in a fresh process). Non-trivial = length >= 1 and "
+                "(address not 16-byte aligned or slice abuts a guard page); distinct = FNV-1a of (configuration, case)",
+    },
     "C03": {
         "jobs": jobs_c03,
         "build_failure_is_violation": True,
